@@ -54,6 +54,10 @@ def run(ctx):
     c01.run(dep(ctx, "C07", "C01"))
     c05.reader_ownership(dep(ctx, "C07", "C05"), "C05.C")
     c05.ordinal_rule(dep(ctx, "C07", "C05"), "C05.N")
+    from . import c06
+    c06.decoder_rule(dep(ctx, "C07", "C06"))
+    c06.suffix_rule(dep(ctx, "C07", "C06"))
+    c06.accessor_rule(dep(ctx, "C07", "C06"))
 
 
 def worker_closure(fv):
